@@ -4,16 +4,14 @@ import (
 	"bytes"
 	"errors"
 	"fmt"
+	"os"
 	"strconv"
 	"strings"
 	"sync"
-	"time"
 
-	"github.com/scrapli/scrapligo/driver/generic"
-	"github.com/scrapli/scrapligo/driver/opoptions"
-	"github.com/scrapli/scrapligo/driver/options"
 	"github.com/scrapli/scrapligo/util"
 
+	"verifgo/facts"
 	"verifgo/sim"
 	"verifgo/vlib"
 )
@@ -50,8 +48,53 @@ type c01cmd struct {
 	out string // device output for this command (lines end in NL; may hold CR, ESC sequences)
 }
 
+// c01op is one operation of a session, in the order the caller issues them.
+//
+//	'S' plain send; 'I' send with interim prompt patterns; 'E' eager send; 'P' GetPrompt;
+//	'N' a call with an empty command sequence (nil / empty slice, empty file, missing file):
+//	nothing may reach the device.
+type c01op struct {
+	kind     byte
+	ci       int   // index into cs.cmds (sends)
+	interim  []int // indices into facts.C01Interim ('I', or a batch sent with interim patterns)
+	stopAt   int   // the interim prompt the device stops at after this command's output; -1 = its prompt
+	implicit bool  // 'P' issued inside the library (network driver's privilege check): result not observed
+	nkind    int   // 'N': 0 nil slice, 1 empty slice, 2 empty file, 3 missing file
+	batch    int   // sends with the same id >= 0 go out in one SendCommands(FromFile) call
+	// the empty command under ExactMatchInput: the code waits for an echo that cannot come (finding
+	// C01-F16). Always the last operation of its session; judged apart from the model replay.
+	blankExact bool
+}
+
+// API flavours of a session.
+const (
+	c01apiCommand     = iota // generic.Driver.SendCommand per command
+	c01apiCommands           // generic.Driver.SendCommands
+	c01apiChannel            // Channel.SendInput / Channel.GetPrompt directly
+	c01apiNetCommand         // network.Driver.SendCommand per command
+	c01apiNetCommands        // network.Driver.SendCommands
+	c01apiFile               // generic.Driver.SendCommandsFromFile
+	c01apiNetFile            // network.Driver.SendCommandsFromFile
+)
+
+var c01apiNames = []string{"generic.SendCommand", "generic.SendCommands", "Channel.SendInput", "network.SendCommand", "network.SendCommands", "generic.SendCommandsFromFile", "network.SendCommandsFromFile"}
+
+func c01apiBatch(a int) bool {
+	return a == c01apiCommands || a == c01apiNetCommands || a == c01apiFile || a == c01apiNetFile
+}
+func c01apiNet(a int) bool {
+	return a == c01apiNetCommand || a == c01apiNetCommands || a == c01apiNetFile
+}
+
 type c01case struct {
 	seed       uint64
+	api        int
+	privKnown  bool // network flavours: CurrentPriv already is the desired level (no GetPrompt before the first send)
+	chanLog    int  // 1: a channel log writer is set; 2: one whose every write fails
+	sparse     int  // > 0: every sparse-th transport read returns no bytes
+	sparseNil  bool
+	fileNoEOL  bool // from-file flavours: the last line has no newline
+	ops        []c01op
 	depth      int
 	exact      bool
 	shortDepth bool // depth bound ignores the echo line (property: > prompt + longest output line)
@@ -89,7 +132,13 @@ func genC01(seed uint64, thorough bool) c01case {
 	if cs.segClass != 1 && r.Chance(1, 2) {
 		cs.readSize = 8192
 	}
+	// escape sequences force a read size of at least 16 (a smaller one necessarily cuts them): most
+	// sessions drawn with a small read size therefore print none, so that sizes 1, 2 and 7 are used
+	noEsc := cs.readSize < 16 && r.Chance(4, 5)
 	cs.delayUs = []int{20, 50, 250}[r.Intn(3)]
+	if cs.readSize < 16 && cs.delayUs == 250 {
+		cs.delayUs = 50 // thousands of tiny reads, each followed by the read delay: keep the session short
+	}
 	cs.ret = "\n"
 	if r.Chance(1, 5) {
 		cs.ret = "\r\n"
@@ -116,6 +165,10 @@ func genC01(seed uint64, thorough bool) c01case {
 				c.cmd = "q"
 			}
 		}
+		if r.Chance(1, 14) {
+			// the empty command: the device echoes nothing and answers the bare return
+			c.cmd = ""
+		}
 		var b bytes.Buffer
 		for l := r.Intn(maxLines + 1); l > 0; l-- {
 			switch r.Intn(12) {
@@ -133,7 +186,7 @@ func genC01(seed uint64, thorough bool) c01case {
 					b.WriteString(r.Pick([]string{"  ", " ", "\t", "    "}))
 				}
 				for w := r.Range(1, 7); w > 0; w-- {
-					if r.Chance(1, 8) {
+					if r.Chance(1, 8) && !noEsc {
 						b.WriteString(r.Pick(c01esc))
 					}
 					b.WriteString(r.Pick(c01words))
@@ -152,7 +205,13 @@ func genC01(seed uint64, thorough bool) c01case {
 		c.out = b.String()
 		cs.cmds = append(cs.cmds, c)
 	}
+	c01genOps(r, &cs)
 	// longest line of anything the device prints (after CR/ESC removal), incl. prompt + echo
+	for _, p := range facts.C01Interim {
+		if len(p.Text) > cs.longest {
+			cs.longest = len(p.Text)
+		}
+	}
 	for _, c := range cs.cmds {
 		for _, ln := range strings.Split(string(sim.StripEsc([]byte(strings.ReplaceAll(c.out, "\r", "")))), "\n") {
 			if len(ln) > cs.longest {
@@ -199,153 +258,6 @@ func c01expected(cs c01case, c c01cmd) string {
 	return strings.Trim(strings.Join(lines, "\n"), "\n")
 }
 
-type c01obs struct {
-	results  []string
-	errs     []string
-	lines    []string // device line log
-	writes   [][]byte
-	line     string // model request
-	straddle bool
-	closeErr string
-}
-
-func runC01case(cs c01case) c01obs {
-	var o c01obs
-	dev := sim.NewCLI()
-	dev.Mode = "exec"
-	dev.NL = cs.nl
-	dev.EchoWrap = cs.wrap
-	dev.IgnoreCR = cs.ret != "\n"
-	dev.Prompt = func(*sim.CLI) string { return cs.prompt }
-	k := 0
-	dev.Handle = func(_ *sim.CLI, line string) string {
-		if k < len(cs.cmds) {
-			k++
-			return cs.cmds[k-1].out
-		}
-		return ""
-	}
-	sr := vlib.NewRng(cs.seed ^ 0xabcdef)
-	switch cs.segClass {
-	case 1:
-		dev.Seg = sim.SegFixed(1)
-	case 2:
-		dev.Seg = sim.SegFixed(cs.segK)
-	case 3, 4:
-		dev.Seg = func(avail int) int { return 1 + sr.Intn(avail+cs.segK)%(cs.segK*3) }
-	}
-	dev.ReadPause = time.Duration(cs.pauseUs) * time.Microsecond
-	dev.Start()
-	d, err := generic.NewDriver("h", options.WithCustomTransport(dev), options.WithAuthBypass(),
-		options.WithTimeoutOps(3*time.Second), options.WithReadDelay(time.Duration(cs.delayUs)*time.Microsecond),
-		options.WithPromptSearchDepth(cs.depth), options.WithTransportReadSize(cs.readSize), options.WithReturnChar(cs.ret))
-	if err != nil {
-		o.errs = append(o.errs, "new:"+err.Error())
-		return o
-	}
-	if err := d.Open(); err != nil {
-		o.errs = append(o.errs, "open:"+errClass(err))
-		return o
-	}
-	var bopts []util.Option
-	if !cs.strip {
-		bopts = append(bopts, opoptions.WithNoStripPrompt())
-	}
-	if cs.exact {
-		bopts = append(bopts, opoptions.WithExactMatchInput())
-	}
-	if cs.seed%3 == 1 {
-		// the batch API: one SendCommands call for the whole sequence, same per-operation options
-		var cmds []string
-		for _, c := range cs.cmds {
-			cmds = append(cmds, c.cmd)
-		}
-		mr, err := d.SendCommands(cmds, bopts...)
-		if mr != nil {
-			for _, r := range mr.Responses {
-				o.errs = append(o.errs, "nil")
-				o.results = append(o.results, r.Result)
-			}
-		}
-		if err != nil {
-			o.errs = append(o.errs, errClass(err))
-			o.results = append(o.results, "")
-		}
-	}
-	for _, c := range cs.cmds {
-		if cs.seed%3 == 1 {
-			break
-		}
-		opts := bopts
-		r, err := d.SendCommand(c.cmd, opts...)
-		o.errs = append(o.errs, errClass(err))
-		if err != nil {
-			o.results = append(o.results, "")
-			break
-		}
-		o.results = append(o.results, r.Result)
-	}
-	o.closeErr = errClass(d.Close())
-	// reconstruct the per-exchange read chunks from what the transport delivered
-	dev.Snapshot(func() {
-		for _, l := range dev.Lines {
-			o.lines = append(o.lines, l.Line)
-		}
-		for _, w := range dev.Writes {
-			o.writes = append(o.writes, w.Data)
-		}
-		// region boundaries in emitted-byte offsets
-		var bounds []int // end offsets of: echo0, resp0, echo1, resp1, ...
-		nw := len(dev.Writes)
-		for i := 0; i+1 < nw; i += 2 {
-			bounds = append(bounds, dev.Writes[i+1].EmittedBefore)
-			if i+2 < nw {
-				bounds = append(bounds, dev.Writes[i+2].EmittedBefore)
-			} else {
-				bounds = append(bounds, dev.Emitted)
-			}
-		}
-		// chunks = the device's whole emission per region, cut where reads actually ended
-		// (what was never read before Close is one more chunk: the theorem's hypotheses are
-		// about the device's complete reaction, not only the part the client looked at)
-		stream := dev.EmittedBytes()
-		cuts := map[int]bool{}
-		pos := 0
-		for _, sz := range dev.ReadLog {
-			pos += sz
-			cuts[pos] = true
-		}
-		if dev.SplitAtoms > 0 {
-			o.straddle = true // a read size smaller than an escape sequence cut it: outside the quantifier
-		}
-		regions := make([][][]byte, len(bounds))
-		start := 0
-		for ri, end := range bounds {
-			if end > len(stream) {
-				end = len(stream)
-			}
-			last := start
-			for p := start + 1; p <= end; p++ {
-				if cuts[p] || p == end {
-					regions[ri] = append(regions[ri], stream[last:p])
-					last = p
-				}
-			}
-			if end < pos && !cuts[end] && end > start {
-				o.straddle = true // one read carried bytes of two regions
-			}
-			start = end
-		}
-		var f []string
-		f = append(f, "c01", "sess", strconv.Itoa(cs.depth), b2s(cs.exact), b2s(cs.strip), vlib.Hex([]byte(cs.ret)))
-		for i := 0; i+1 < len(regions) && i/2 < len(cs.cmds); i += 2 {
-			f = append(f, vlib.Hex([]byte(cs.cmds[i/2].cmd)), vlib.HexList(regions[i]), vlib.HexList(regions[i+1]))
-		}
-		o.line = strings.Join(f, " ")
-	})
-	return o
-}
-
 func b2s(b bool) string {
 	if b {
 		return "1"
@@ -355,7 +267,7 @@ func b2s(b bool) string {
 
 func runC01(c *ctx) {
 	res := c.res
-	res.Rule = "sessions: real generic.Driver.SendCommand x 1-6 commands over the causal CLI simulator; outputs of 0-40 lines built from words (incl. #>$ inside lines), CR, trailing spaces, blank lines, complete CSI/OSC sequences; echo verbatim or wrapped; segmentations whole/1-byte/fixed/random; read sizes 1..65536; depths from longest line+2 to 1000; strip on/off; exact/fuzzy; read delays. non-trivial = in-domain (theorem hypotheses hold on the observed chunks) session with >=2 commands or >=1 output line; distinct by case seed"
+	res.Rule = "sessions of 1-6 commands over the causal CLI simulator through one of seven API flavours (generic.Driver SendCommand / SendCommands / SendCommandsFromFile, the same three on a network.Driver whose privilege level is already right or is found right by its own GetPrompt, Channel.SendInput directly), interleaved with GetPrompt calls, sends with interim prompt patterns (device stops at its prompt or at an interim prompt), eager sends, and calls with an empty command sequence; optional channel log writer and transport reads that return no bytes; outputs of 0-40 lines built from words (incl. #>$ inside lines), CR, trailing spaces, blank lines, complete CSI/OSC sequences; echo verbatim or wrapped; segmentations whole/1-byte/fixed/random; read sizes 1..65536; depths from longest line+2 to 1000; strip on/off; exact/fuzzy; read delays. non-trivial = in-domain (theorem hypotheses hold on the observed chunks) session with >=2 commands or >=1 output line; distinct by case seed"
 	if c.replay != "" {
 		f := strings.Fields(c.replay)
 		if len(f) >= 2 && f[0] == "c01case" {
@@ -368,6 +280,7 @@ func runC01(c *ctx) {
 	}
 	c01Internal(c)
 	rxDiff(c, []string{"Channel.promptPattern", "Util.ansiPattern"}, c.n(300, 3000))
+	c01InterimDiff(c)
 	n := c.n(1200, 12000)
 	cases := make([]c01case, n)
 	for i := range cases {
@@ -392,70 +305,231 @@ func c01check(c *ctx, cases []c01case) {
 	}
 	wg.Wait()
 	var lines []string
+	logAt := map[int]int{}
 	for i := range obs {
-		if obs[i].line == "" {
-			obs[i].line = "c01 sess 10 0 0 0a"
+		// the theorem's hypotheses do not depend on the segmentation: when the device did not receive
+		// the writes the operations call for (so the observed reads belong to another dialogue), the
+		// domain is judged on the case alone
+		l := obs[i].line
+		if !obs[i].aligned || l == "" {
+			l = obs[i].intended
 		}
-		lines = append(lines, obs[i].line)
+		lines = append(lines, l)
+	}
+	xAt := map[int]int{}
+	for i := range obs {
+		if cases[i].chanLog == 1 && obs[i].logLine != "" {
+			logAt[i] = len(lines)
+			lines = append(lines, obs[i].logLine)
+		}
+		if obs[i].xline != "" {
+			xAt[i] = len(lines)
+			lines = append(lines, obs[i].xline)
+		}
 	}
 	ans := c.ask(lines)
 	for i, cs := range cases {
 		o := obs[i]
+		all := c01allOps(cs)
 		tier := ""
 		if c.thorough() {
 			tier = " thorough"
 		}
 		caseLine := fmt.Sprintf("c01case %d%s", cs.seed, tier)
 		f := strings.Fields(ans[i])
-		if len(f) != 5 {
-			res.Fail("machinery", caseLine, "driver answered "+ans[i]+" for "+o.line, "driver")
+		if len(f) != 7 {
+			res.Fail("machinery", caseLine, "driver answered "+ans[i]+" for "+lines[i], "driver")
 			continue
 		}
 		dom := f[0] == "1" && !o.straddle
 		mok := f[1] == "1"
-		var mres []string
-		if f[2] != "." {
-			for _, h := range strings.Split(f[2], ",") {
-				b, _ := vlib.UnHex(h)
-				mres = append(mres, string(b))
+		unhexList := func(s string) []string {
+			var out []string
+			if s != "." {
+				for _, h := range strings.Split(s, ",") {
+					b, _ := vlib.UnHex(h)
+					out = append(out, string(b))
+				}
 			}
+			return out
 		}
+		mres, spec := unhexList(f[2]), unhexList(f[5])
 		res.Count(fmt.Sprintf("seg:%d", cs.segClass))
 		res.Count(fmt.Sprintf("exact:%v strip:%v", cs.exact, cs.strip))
 		res.Count(fmt.Sprintf("cmds:%d", len(cs.cmds)))
 		res.Count(fmt.Sprintf("ret:%q", cs.ret))
 		res.Count(fmt.Sprintf("dom:%v", dom))
+		res.Count(fmt.Sprintf("read size:%d", cs.readSize))
+		res.Count(fmt.Sprintf("read delay us:%d pause:%v", cs.delayUs, cs.pauseUs > 0))
+		res.Count(fmt.Sprintf("echo wrapped:%v", cs.wrap > 0))
+		res.Count(fmt.Sprintf("device newline:%q", cs.nl))
+		switch {
+		case cs.depth == 1000:
+			res.Count("depth:default 1000")
+		case cs.depth <= cs.longest+4:
+			res.Count(fmt.Sprintf("depth:tight (longest line+2..4; echo line counted:%v)", !cs.shortDepth))
+		default:
+			res.Count("depth:longest line+2..201")
+		}
+		res.Count("api:" + c01apiNames[cs.api])
+		if c01apiNet(cs.api) {
+			res.Count(fmt.Sprintf("network priv known:%v", cs.privKnown))
+		}
+		if cs.chanLog > 0 {
+			res.Count(fmt.Sprintf("channel log set (failing writer:%v)", cs.chanLog == 2))
+		}
+		if cs.sparse > 0 {
+			res.Count(fmt.Sprintf("empty transport reads (nil:%v)", cs.sparseNil))
+			if o.empties > 0 {
+				res.Count("empty transport reads happened")
+			}
+		}
+		for _, op := range all {
+			kind := string(op.kind)
+			switch {
+			case op.implicit:
+				kind = "P implicit (network privilege check)"
+			case op.kind == 'N':
+				kind = fmt.Sprintf("N empty sequence kind %d", op.nkind)
+			case op.stopAt >= 0:
+				kind += " stopped by interim prompt " + facts.C01Interim[op.stopAt].Name
+			case op.blankExact:
+				kind = "S empty command, exact"
+			case c01isSend(op.kind) && cs.cmds[op.ci].cmd == "":
+				kind += " empty command"
+			}
+			res.Count("op:" + kind)
+			if dom {
+				res.Count("in-domain op:" + kind)
+			}
+		}
 		if o.straddle {
 			res.Count("straddle")
+		}
+		if !o.aligned {
+			res.Count("writes not as the operations call for (domain judged on the case alone)")
 		}
 		nontriv := dom && (len(cs.cmds) >= 2 || strings.Count(cs.cmds[0].out, "\n") >= 1)
 		res.Case(strconv.FormatUint(cs.seed, 10), nontriv)
 		if i%211 == 0 {
+			var kinds []byte
+			for _, op := range all {
+				kinds = append(kinds, op.kind)
+			}
 			res.Sample(map[string]any{"case": caseLine, "prompt": cs.prompt, "depth": cs.depth, "exact": cs.exact, "strip": cs.strip, "seg": cs.segClass, "read_size": cs.readSize, "wrap": cs.wrap,
-				"cmds": len(cs.cmds), "first_cmd": cs.cmds[0].cmd, "first_out": cs.cmds[0].out, "first_result": first(o.results), "dom": dom})
+				"api": c01apiNames[cs.api], "ops": string(kinds), "cmds": len(cs.cmds), "first_cmd": cs.cmds[0].cmd, "first_out": cs.cmds[0].out, "first_result": first(o.results), "dom": dom})
 		}
 		if !dom {
+			if fb, _ := strconv.Atoi(f[6]); f[0] != "1" {
+				var dev []c01op
+				for _, op := range all {
+					if op.kind != 'N' && !op.blankExact {
+						dev = append(dev, op)
+					}
+				}
+				why := "?"
+				if fb < len(dev) {
+					why = string(dev[fb].kind)
+					if fb > 0 && dev[fb-1].kind == 'E' {
+						why += " after E"
+					}
+					if dev[fb].stopAt >= 0 {
+						why += " stopped by interim"
+					}
+				}
+				res.Count("nodom at op:" + why)
+				if os.Getenv("C01DEBUG") != "" {
+					fmt.Fprintf(os.Stderr, "NODOM %s at %d %s api=%s prompt=%q\n  %s\n  -> %s\n", caseLine, fb, why, c01apiNames[cs.api], cs.prompt, lines[i], ans[i])
+				}
+			}
 			res.Count(fmt.Sprintf("nodom: prompt=%q wrap=%v exact=%v straddle=%v", cs.prompt, cs.wrap > 0, cs.exact, o.straddle))
-			// outside the property's quantifier (e.g. an output line that looks like a prompt):
-			// compare implementation and model for information only when the model completed
+			// outside the property's quantifier (e.g. an output line that looks like a prompt)
 			continue
 		}
 		res.InDomain++
+		// machinery: on an in-domain case the model must do what the theorem says
+		if !mok || strings.Join(mres, "\x00") != strings.Join(spec, "\x00") || f[3] != "1" {
+			res.Fail("machinery", caseLine, fmt.Sprintf("in-domain session but model ok=%v results %q, theorem %q, queue as specified=%s ; request %s", mok, mres, spec, f[3], lines[i]), "model-vs-spec")
+			continue
+		}
 		// oracle: the property on the implementation
+		if o.panicked != "" {
+			res.Fail("oracle", caseLine, fmt.Sprintf("panic in a driver call on a well-formed session (api %s): %s", c01apiNames[cs.api], o.panicked), "panic")
+			continue
+		}
 		bad := false
-		for k, cm := range cs.cmds {
-			if k >= len(o.errs) {
-				res.Fail("oracle", caseLine, fmt.Sprintf("command %d %q was never run (earlier error)", k, cm.cmd), "missing-result")
+		judgeX := false
+		if xi, ok := xAt[i]; ok {
+			xf := strings.Fields(ans[xi])
+			judgeX = len(xf) == 7 && xf[0] == "1" && xf[1] == "1"
+		}
+		mi := 0 // index into the model's result list (operations that reach the device)
+		for k, op := range all {
+			var desc string
+			switch {
+			case op.kind == 'P':
+				desc = fmt.Sprintf("operation %d GetPrompt", k)
+			case op.kind == 'N':
+				desc = fmt.Sprintf("operation %d (empty command sequence, kind %d)", k, op.nkind)
+			default:
+				desc = fmt.Sprintf("operation %d %c %q", k, op.kind, cs.cmds[op.ci].cmd)
+			}
+			if op.kind != 'N' && !op.blankExact {
+				mi++
+			}
+			if op.implicit {
+				continue
+			}
+			if op.blankExact {
+				// judged as the property reads, on the exchange alone: the queue is drained (what
+				// precedes is in domain) and the device's answer to the bare return is well formed (the
+				// model running the same exchange in fuzzy mode, where the code does not wait for an echo)
+				if !judgeX {
+					break
+				}
+				res.Count("in-domain op:S empty command, exact (judged apart)")
+				if o.errs[k] == "" {
+					res.Fail("oracle", caseLine, desc+" was never run (earlier error)", "missing-result")
+					bad = true
+				} else if o.errs[k] != "nil" {
+					res.Fail("oracle", caseLine, fmt.Sprintf("%s (the empty command, ExactMatchInput) returned error class %s; the device answered the return with %q", desc, o.errs[k], cs.nl+cs.cmds[op.ci].out+cs.prompt), "error:"+o.errs[k]+":empty-command-exact")
+					bad = true
+				} else if want := c01expectedOp(cs, op); o.results[k] != want {
+					res.Fail("oracle", caseLine, fmt.Sprintf("%s (the empty command, ExactMatchInput): result %q, expected %q", desc, o.results[k], want), "wrong-result")
+					bad = true
+				}
+				break
+			}
+			if o.errs[k] == "" {
+				res.Fail("oracle", caseLine, desc+" was never run (earlier error)", "missing-result")
 				bad = true
 				break
+			}
+			if op.kind == 'N' {
+				if !o.noResp[k] {
+					res.Fail("oracle", caseLine, desc+" returned responses for commands nobody asked for", "fabricated-result")
+					bad = true
+					break
+				}
+				continue
 			}
 			if o.errs[k] != "nil" {
-				res.Fail("oracle", caseLine, fmt.Sprintf("command %d %q returned error class %s on a well-formed exchange", k, cm.cmd, o.errs[k]), "error:"+o.errs[k])
+				res.Fail("oracle", caseLine, fmt.Sprintf("%s returned error class %s on a well-formed exchange (api %s)", desc, o.errs[k], c01apiNames[cs.api]), "error:"+o.errs[k])
 				bad = true
 				break
 			}
-			if want := c01expected(cs, cm); o.results[k] != want {
-				res.Fail("oracle", caseLine, fmt.Sprintf("command %d %q: result %q, expected %q (depth %d seg %d exact %v strip %v)", k, cm.cmd, o.results[k], want, cs.depth, cs.segClass, cs.exact, cs.strip), "wrong-result")
+			if want := c01expectedOp(cs, op); o.results[k] != want {
+				sig := "wrong-result"
+				if op.kind == 'P' {
+					sig = "wrong-prompt"
+				}
+				res.Fail("oracle", caseLine, fmt.Sprintf("%s: result %q, expected %q (api %s depth %d seg %d exact %v strip %v interim %v stop %d)", desc, o.results[k], want, c01apiNames[cs.api], cs.depth, cs.segClass, cs.exact, cs.strip, op.interim, op.stopAt), sig)
+				bad = true
+				break
+			}
+			// the theorem's result for this operation is the property's
+			if mi-1 < len(spec) && spec[mi-1] != o.results[k] {
+				res.Fail("machinery", caseLine, fmt.Sprintf("%s: theorem says %q, property and implementation say %q", desc, spec[mi-1], o.results[k]), "spec-vs-property")
 				bad = true
 				break
 			}
@@ -465,25 +539,56 @@ func c01check(c *ctx, cases []c01case) {
 		}
 		var wantLines []string
 		var wantWrites [][]byte
-		for _, cm := range cs.cmds {
-			wantLines = append(wantLines, cm.cmd)
-			wantWrites = append(wantWrites, []byte(cm.cmd), []byte(cs.ret))
+		for _, op := range all {
+			switch {
+			case op.kind == 'P':
+				wantLines = append(wantLines, "")
+				wantWrites = append(wantWrites, []byte(cs.ret))
+			case op.blankExact && !judgeX:
+				// not judged: what the device received for it is not either
+				if len(o.lines) > len(wantLines) {
+					o.lines = o.lines[:len(wantLines)]
+				}
+				if len(o.writes) > len(wantWrites) {
+					o.writes = o.writes[:len(wantWrites)]
+				}
+			case c01isSend(op.kind):
+				wantLines = append(wantLines, cs.cmds[op.ci].cmd)
+				wantWrites = append(wantWrites, []byte(cs.cmds[op.ci].cmd), []byte(cs.ret))
+			}
 		}
 		if strings.Join(o.lines, "\x00") != strings.Join(wantLines, "\x00") {
-			res.Fail("oracle", caseLine, fmt.Sprintf("device received lines %q, expected %q", o.lines, wantLines), "wrong-device-input")
+			res.Fail("oracle", caseLine, fmt.Sprintf("device received lines %q, expected %q (api %s)", o.lines, wantLines, c01apiNames[cs.api]), "wrong-device-input")
 			continue
 		}
 		if string(bytes.Join(o.writes, nil)) != string(bytes.Join(wantWrites, nil)) {
 			res.Fail("oracle", caseLine, fmt.Sprintf("device received bytes %q", bytes.Join(o.writes, nil)), "wrong-device-bytes")
 			continue
 		}
-		// correspondence: model results = implementation results; theorem sanity: queue empty
-		if !mok || strings.Join(mres, "\x00") != strings.Join(o.results, "\x00") {
-			res.Fail("correspondence", caseLine, fmt.Sprintf("model ok=%v results %q ; impl %q ; request %s", mok, mres, o.results, o.line), "impl-vs-model")
-			continue
+		// correspondence: model results (replay of the observed reads) = implementation results
+		if o.aligned {
+			var impl []string
+			for k, op := range all {
+				if op.kind == 'N' || op.blankExact {
+					continue
+				}
+				if op.implicit {
+					impl = append(impl, mres[len(impl)]) // not observable
+					continue
+				}
+				impl = append(impl, o.results[k])
+			}
+			if strings.Join(mres, "\x00") != strings.Join(impl, "\x00") {
+				res.Fail("correspondence", caseLine, fmt.Sprintf("model results %q ; impl %q ; request %s", mres, impl, o.line), "impl-vs-model")
+				continue
+			}
 		}
-		if f[3] != "1" {
-			res.Fail("machinery", caseLine, "in-domain session but model queue not empty at the end", "model-vs-spec")
+		// the channel log receives exactly the bytes the read loop enqueued (not part of the property:
+		// compared with the model's normalisation of the observed reads)
+		if li, ok := logAt[i]; ok {
+			if want, _ := vlib.UnHex(ans[li]); !bytes.Equal(want, o.logged) {
+				res.Fail("correspondence", caseLine, fmt.Sprintf("channel log holds %q ; the reads, normalised by the model, are %q", o.logged, want), "channel-log")
+			}
 		}
 	}
 	res.TracesVsImpl += len(cases)
